@@ -90,7 +90,8 @@ def gen(t, sform, shape, forms, lens, domain, tier):
     if domain == "accept":
         b.append("kani::assume(%s);" % oks)
         b.append("kani::cover!(true, \"VP:reached-call\");")
-        b.append("match %s(sv, vec![%s]) {" % (fxn, ivs))
+        b.append("let ixarr = [%s];" % ivs)
+        b.append("match vp_%s(sv, &ixarr[..]) {" % fxn)
         b.append("  Err(e) => { forget(e); assert!(false, \"VP:rejected-valid-index\"); }")
         b.append("  Ok(f) => {")
         b.append("    f.solve();")
@@ -121,7 +122,8 @@ def gen(t, sform, shape, forms, lens, domain, tier):
     else:
         b.append("kani::assume(!(%s));" % oks)
         b.append("kani::cover!(true, \"VP:reached-call\");")
-        b.append("match %s(sv, vec![%s]) {" % (fxn, ivs))
+        b.append("let ixarr = [%s];" % ivs)
+        b.append("match vp_%s(sv, &ixarr[..]) {" % fxn)
         b.append("  Err(e) => { kani::cover!(true, \"VP:rejected-err\"); forget(e); }")
         b.append("  Ok(f) => {")
         b.append("    f.solve();")
@@ -130,7 +132,7 @@ def gen(t, sform, shape, forms, lens, domain, tier):
         b.append("    forget(v); forget(f);")
         b.append("  }")
         b.append("}")
-    b.append("forget(sc);")
+    b.append("forget(ixarr); forget(sc);")
     what = "x[%s]" % ",".join({"S": "i", "V": "[i..]", "B": "mask", "A": ":"}[f] + (str(n) if f in "VB" else "") for f, n in zip(forms, lens))
     h = H(name + "_" + domain, "    " + "\n    ".join(b), WHERE, domain=domain,
           key="%s/%s/%s/%s" % (fxn, sform, "".join("%s%s" % (f, n if f in "VB" else "") for f, n in zip(forms, lens)), domain),
@@ -144,6 +146,7 @@ def gen(t, sform, shape, forms, lens, domain, tier):
           unwind=max(N, MAXSEL, max(lens)) + 3, tier=tier, group=fxn, solver="kissat")
     h.slice = slice_for(t)
     h.heavy = True
+    h.stub_kind = True
     return h
 
 
@@ -181,14 +184,22 @@ def plan(tier, seed):
     for sform, shape in (("RD", (1, 3)), ("MD", (2, 2))):
         hs.append(gen("u8", sform, shape, ("S",), (0,), "accept", "thorough"))
         hs.append(gen("u8", sform, shape, ("V",), (2,), "accept", "thorough"))
+    src = read_repo("src/interpreter/src/stdlib/access/matrix.rs")
+    prelude, extracted = "", {}
+    for fx in sorted(set(list(DISPATCH_1D.values()) + list(DISPATCH_2D.values()))):
+        t_, h_ = extract_dispatch_fn(src, fx, "src/interpreter/src/stdlib/access/matrix.rs")
+        prelude += t_
+        extracted[fx] = h_
     return {
         "harnesses": hs,
+        "incrate_prelude": {WHERE: prelude},
+        "extracted": extracted,
         "explanation": "Kani/CBMC over the real access dispatch functions (impl_access_*_fxn / matrix_access_*_fxn) and the Access* kernels they "
                        "build, in the harness copy of mech-interpreter under a per-kind feature slice, with kissat; source elements, index "
                        "values, index vectors and mask bits symbolic",
         "bounds": "sources 1x3, 3x1, 2x2, 2x3; index vectors of length 2, masks of length dim-1/dim/dim+1, at most %d selected positions "
                   "per dimension; element kinds f64 (u8 for scalar/vector forms, thorough)" % MAXSEL,
-        "outside": ["subscript(): syntax -> index Values (as_index conversions, range evaluation)", "sources larger than 2x3",
+        "outside": ["subscript(): syntax -> index Values (as_index conversions, range evaluation)", "the `Vec<Value>` parameter of the dispatch functions: their bodies are copied verbatim with `ixes: &[Value]` (see extract_dispatch_fn)", "sources larger than 2x3",
                     "swizzle / dot access / tables / maps / tuples", "fixed-size storage forms", "the NativeFunctionCompiler wrappers"],
         "caps": {"quick_timeout": 900, "thorough_timeout": 2400, "heavy_jobs": 6, "heavy_rss_gb": 9},
     }
